@@ -461,6 +461,8 @@ def get_unconnected_connectors(graph: nx.MultiDiGraph, start_nodes: Set[DSGNode]
         for edge in iter_out_edges(graph, connector_node, edge_type=EdgeType.DERIVES):
             if isinstance(edge[1], ConnectorDegreeGroupingNode):
                 base_conn_node = edge[1]
+                # Grouping nodes are shared between graphs: refresh the aggregated degree for this graph
+                base_conn_node.update_deg(graph)
                 break
 
         is_out_conn = True
